@@ -32,6 +32,52 @@ FIXED = {
 }
 
 
+def compare_twins(srcs, levels, nstates, rng):
+    """srcs: {pid: {'inl','sub','out'}} -> (violations, nexec, nprog, ninl)"""
+    viol = []
+    nexec = 0
+    nprog = 0
+    ninl = 0
+    for O in levels:
+        comp = compile_variants(srcs, {'inl': [O], 'sub': [O], 'out': [O]})
+        ok = {}
+        for pid, vs in comp.items():
+            sts = {vn: r['status'] for vn, r in vs.items()}
+            if all(s == 'ok' for s in sts.values()):
+                ok[pid] = vs
+                ninl += sum(1 for f in vs['inl']['funcs'] for l in (f.get('final') or []) if l[0] == 'L' and l[1].startswith('.endofinline'))
+            elif 'ok' in sts.values() and vs['out']['status'] == 'ok':
+                e = {vn: (r['status'], (r.get('err') or {}).get('msg')) for vn, r in vs.items()}
+                # declaring a function inline may legitimately be refused (e.g. defined after use)
+                pass
+        nprog += len(ok)
+        ce = coexec(ok, nstates, rng, layout_from='out', with_trace=True)
+        for pid, m in ce.items():
+            base = m['runs']['out']
+            for vn in ('inl', 'sub'):
+                for k in range(len(m['states'])):
+                    a, b = base.get(k), m['runs'][vn].get(k)
+                    if a is None or b is None:
+                        raise HarnessError('missing co-execution result')
+                    nexec += 1
+                    # inline assembly lines and protected (hardware / timing) instructions executed, in order;
+                    # branch events are left out: the expansion clears the protection of renamed branches
+                    ev = lambda r: [e for e in (r.get('trace') or []) if not re.match(r'I(BCC|BCS|BEQ|BMI|BNE|BPL|JMP)', e)]
+                    if observable(a) != observable(b) or (a['tag'] == 'halt' and ev(a) != ev(b)):
+                        viol.append({'pid': pid, 'why': 'final state differs with and without the inline keyword' if observable(a) != observable(b) else
+                                            'the sequence of inline-assembly lines / protected instructions executed differs with and without the inline keyword: %s vs %s' % (ev(a), ev(b)),
+                                     'level': O, 'variant': vn,
+                                     'with_inline': srcs[pid][vn], 'without_inline': srcs[pid]['out'],
+                                     'initial': describe_state(m['layout'], m['states'][k], m['watch']),
+                                     'out_of_line': describe_run(m['layout'], a, m['watch']),
+                                     'inlined': describe_run(m['layout'], b, m['watch'])})
+                        break
+                else:
+                    continue
+                break
+    return viol, nexec, nprog, ninl
+
+
 def run(ctx):
     quick = ctx.tier == 'quick'
     rng = ctx.rng
@@ -44,6 +90,7 @@ def run(ctx):
     levels = ['-O0', '-O1'] if quick else ['-O0', '-O1', '-O2', '-O3']
     n_prog = 400 if quick else 8000
     srcs = {}
+    progobj = {}
     for i in range(n_prog):
         p = gen_program(rng, dict(inline=True, calls=True, bait=(i % 4 == 0), signed=(i % 2 == 0)))
         if not any(f.get('inline') for f in p.funcs):
@@ -64,6 +111,9 @@ def run(ctx):
             f['inline'] = False
         without = p.source()
         srcs['p%d' % i] = {'inl': with_src, 'sub': subset, 'out': without}
+        for f in p.funcs:
+            f['inline'] = f.pop('_was')
+        progobj['p%d' % i] = p
     for k, s in FIXED.items():
         srcs[k] = {'inl': s, 'sub': s, 'out': s.replace('inline ', '')}
     # early returns in front of a tail made of asm() statements only
@@ -77,47 +127,51 @@ def run(ctx):
     for i in range(60 if quick else 1500):
         s = nested_inline_program(rng)
         srcs['n%d' % i] = {'inl': s, 'sub': s, 'out': s.replace('inline ', '')}
-    viol = []
-    nexec = 0
-    nprog = 0
-    ninl = 0
-    for O in levels:
-        comp = compile_variants(srcs, {'inl': [O], 'sub': [O], 'out': [O]})
-        ok = {}
-        for pid, vs in comp.items():
-            sts = {vn: r['status'] for vn, r in vs.items()}
-            if all(s == 'ok' for s in sts.values()):
-                ok[pid] = vs
-                ninl += sum(1 for f in vs['inl']['funcs'] for l in (f.get('final') or []) if l[0] == 'L' and l[1].startswith('.endofinline'))
-            elif 'ok' in sts.values() and vs['out']['status'] == 'ok':
-                e = {vn: (r['status'], (r.get('err') or {}).get('msg')) for vn, r in vs.items()}
-                # declaring a function inline may legitimately be refused (e.g. defined after use)
-                pass
-        nprog += len(ok)
-        ce = coexec(ok, 12 if quick else 32, rng, layout_from='out', with_trace=True)
-        for pid, m in ce.items():
-            base = m['runs']['out']
-            for vn in ('inl', 'sub'):
-                for k in range(len(m['states'])):
-                    a, b = base.get(k), m['runs'][vn].get(k)
-                    if a is None or b is None:
-                        raise HarnessError('missing co-execution result')
-                    nexec += 1
-                    # inline assembly lines and protected (hardware / timing) instructions executed, in order;
-                    # branch events are left out: the expansion clears the protection of renamed branches
-                    ev = lambda r: [e for e in (r.get('trace') or []) if not re.match(r'I(BCC|BCS|BEQ|BMI|BNE|BPL|JMP)', e)]
-                    if observable(a) != observable(b) or (a['tag'] == 'halt' and ev(a) != ev(b)):
-                        viol.append({'why': 'final state differs with and without the inline keyword' if observable(a) != observable(b) else
-                                            'the sequence of inline-assembly lines / protected instructions executed differs with and without the inline keyword: %s vs %s' % (ev(a), ev(b)),
-                                     'level': O, 'variant': vn,
-                                     'with_inline': srcs[pid][vn], 'without_inline': srcs[pid]['out'],
-                                     'initial': describe_state(m['layout'], m['states'][k], m['watch']),
-                                     'out_of_line': describe_run(m['layout'], a, m['watch']),
-                                     'inlined': describe_run(m['layout'], b, m['watch'])})
-                        break
-                else:
-                    continue
-                break
+    viol, nexec, nprog, ninl = compare_twins(srcs, levels, 12 if quick else 32, rng)
+    # a difference may be a known C01-class defect taking a different shape in the two variants:
+    # minimise (generated programs only), attribute by feature
+    from lib.shrink import shrink
+    from lib.features import features
+    import copy
+    open_f = [f for f in ctx.findings if f.get('status') == 'open' and f.get('features')]
+    kept = []
+    budget = 6 if quick else 40
+    for v in viol:
+        p0 = progobj.get(v.get('pid'))
+        if p0 is None or budget <= 0:
+            kept.append(v)
+            continue
+        budget -= 1
+        lv = v['level']
+
+        def twin(c):
+            q = copy.deepcopy(c)
+            for f in q.funcs:
+                f['inline'] = False
+            return {'inl': c.source(), 'sub': c.source(), 'out': q.source()}
+
+        def batch(cands, lv=lv):
+            ss = {'c%d' % i: twin(c) for i, c in enumerate(cands) if any(f.get('inline') for f in c.funcs)}
+            if not ss:
+                return [False] * len(cands)
+            try:
+                vv, _, _, _ = compare_twins(ss, [lv], 10, random.Random(9))
+            except Exception:
+                return [False] * len(cands)
+            bad = set(x['pid'] for x in vv)
+            return [('c%d' % i) in bad for i in range(len(cands))]
+        small = p0
+        if batch([small])[0]:
+            small = shrink(small, batch, max_rounds=40)
+        fs = features(small)
+        att = [f for f in open_f if set(f['features']) <= fs]
+        if att:
+            ctx.known_finding(att[0]['id'], att[0]['text'])
+            continue
+        v['minimised_program'] = small.source()
+        v['features'] = sorted(fs)
+        kept.append(v)
+    viol = kept
     ctx.cov['programs'] = len(srcs)
     ctx.cov['distinct_nontrivial'] = ninl
     ctx.cov['traces_validated_against_impl'] = nexec
